@@ -264,3 +264,87 @@ Definition mp_run_tab (sig : list (list nat)) (samples : list (list (Q * Q))) (c
 Definition corr_mp (vs : list (glev row unit)) (e : list Z * list (list row)) : bool :=
   all2 (fun v n => Z.eqb (Z.of_nat (gN v)) n) vs (fst e) && all2 (fun v n => Z.eqb (Z.of_nat (gcnt v)) n) vs (fst e) &&
   all2 (fun v r => rows_eqb (grows v) r) vs (snd e).
+
+(* ==================================================================== wave 7: an exception raised by a simulation *)
+(* `simulation_path()` raises at iteration fi of the pass of level fl in pass number fp (passes counted from 0 over the pricing).
+   Engine.price has no handler: the exception propagates to the caller, NOTHING is returned.  What the engine object still
+   exposes (engine.statistics) is the state at that moment: the levels before fl have finished the pass, level fl has fi new
+   rows written but Nl[fl] NOT incremented, the levels after fl still hold the zero rows extend(Nl + dNl) padded. *)
+Inductive aout (S : Type) :=
+| AReturn (o : outcome S)      (* the fault point was never reached: Engine.price returned (or the model ran out of fuel) *)
+| ARaised (exposed : S).       (* the exception left Engine.price; `exposed` = what engine.statistics holds               *)
+Arguments AReturn {S} o.
+Arguments ARaised {S} exposed.
+
+Section GFault.
+  Context {A B C : Type}.
+  Variable rowof : nat -> nat -> A.
+  Variable coef : nat -> list A -> C.
+  Variable adj : nat -> C -> A -> B.
+  Variable zA : A.
+  Variable zB : B.
+  Variable cost : nat -> nat -> Q.
+  Variable alloc : nat -> list Z.
+  Variable conv : nat -> bool.
+  Variable garbA : nat -> nat -> A.
+  Variable garbB : nat -> nat -> B.
+  Variable level_max : nat.
+
+  (* compute_level_l interrupted after fi iterations: fi rows written, the coupling process of the level has simulated fi more
+     paths; Nl, sum_cost, the with_cv rows (compute_coefficients_mlmc is after the loop) are untouched *)
+  Definition gpartial_level (level fi : nat) (v : glev A B) : glev A B :=
+    mkG (gN v) (gdN v) (gcnt v + fi) (gcost v) (gdraw rowof level (gN v) (gcnt v) fi (grows v)) (gcv v) (gpasses v).
+
+  (* the `for level in range(L + 1)` loop with the fault armed at (fl, fi): true = raised *)
+  Fixpoint grun_levels_f (fl fi level : nat) (vs : list (glev A B)) : list (glev A B) * bool :=
+    match vs with
+    | [] => ([], false)
+    | v :: r =>
+        if Nat.eqb level fl && Nat.ltb fi (gdN v) then (gpartial_level level fi v :: r, true)
+        else let '(r', b) := grun_levels_f fl fi (S level) r in (grun_level rowof coef adj cost level v :: r', b)
+    end.
+
+  Fixpoint gloop_f (fp fl fi : nat) (pass fuel : nat) (s : gstate A B) : aout (gstate A B) :=
+    match fuel with
+    | O => AReturn OutOfFuel
+    | S f =>
+        if Nat.eqb (gtotal_dN (glevels s)) 0 then AReturn (Fallthrough s)
+        else
+          let '(vs, raised) := if Nat.eqb pass fp then grun_levels_f fl fi 0 (glevels s)
+                               else (grun_levels rowof coef adj cost 0 (glevels s), false) in
+          if raised then ARaised (mkGS vs (gnalloc s) (gnconv s))
+          else
+            let vs1 := gset_dN (alloc (gnalloc s)) 0 vs in
+            if gwithin_one_pct vs1 then
+              if conv (gnconv s) || Nat.eqb (length vs1 - 1) level_max
+              then AReturn (Converged (mkGS vs1 (S (gnalloc s)) (S (gnconv s))))
+              else
+                let vs2 := gset_dN (alloc (S (gnalloc s))) 0 (vs1 ++ [gnew_level]) in
+                gloop_f fp fl fi (S pass) f (mkGS (map (gext_level zA zB) vs2) (S (S (gnalloc s))) (S (gnconv s)))
+            else gloop_f fp fl fi (S pass) f (mkGS (map (gext_level zA zB) vs1) (S (gnalloc s)) (gnconv s))
+    end.
+
+  Definition gprice_run_f (fp fl fi fuel L0 N0 : nat) : aout (gstate A B) :=
+    gloop_f fp fl fi 0 fuel (ginit_state garbA garbB L0 N0).
+End GFault.
+
+Definition vfault_tab (f : nat * nat * nat) (d : nat) (samples : list (list (Q * Q))) (ctab : list Q) (atab : list (list Z))
+           (vtab : list bool) (df notional : Q) (level_max fuel L0 N0 : nat) : aout (gstate srow vrow) :=
+  let '(fp, fl, fi) := f in
+  gprice_run_f (srow_of (tab_sample samples) h_pay d h_ctl h_cnot 0 df notional)
+               (coef_c d (bst_std 0)) (adj_c d (fun _ _ => 0))
+               (zero_srow d 0) (repeat zero_row d)
+               (tab_cost ctab) (tab_alloc atab) (tab_conv vtab) const_garbA const_garbB level_max fp fl fi fuel L0 N0.
+
+(* expected = (rows to compare: all of them (true) or only those written so far (false: first pass, np.empty content behind),
+               number of paths simulated per level, payoff rows [level][path][component]) *)
+Definition corr_fault (o : aout (gstate srow vrow)) (e : bool * list Z * list (list vrow)) : bool :=
+  let '(full, cnts, prow) := e in
+  match o with
+  | ARaised s =>
+      all2 (fun v n => Z.eqb (Z.of_nat (gcnt v)) n) (glevels s) cnts &&
+      all2 (fun v r => Nat.eqb (length (grows v)) (length r) &&
+                       (let k := if full then length r else gcnt v in
+                        vrows_eqb (firstn k (map fst (grows v))) (firstn k r))) (glevels s) prow
+  | AReturn _ => false
+  end.
